@@ -13,7 +13,10 @@ RULE = ("case = core count + history of submit/exit(rc)/cancel/advance-clock/sta
         "start failure/time-out/failed dependency -> failed-class, cancelled itself or via dependency -> cancelled); "
         "a final state never changes at a later quiescent point; at most one spawn per task; cancelling a final "
         "task changes nothing; logs equal the bytes the process wrote. Non-trivial: a cancel or time-out hit a "
-        "running task, or a start/log failure occurred. Distinct = SHA-1 of canonical case JSON.")
+        "running task, or a start/log failure occurred. "
+        "Real tier also: dotted task names, the pool started from a sub-directory of the project, the logs "
+        "directory removed before the run. "
+        "Distinct = SHA-1 of canonical case JSON.")
 ASSUMPTIONS = [
     "virtual tier: fake processes; 'eventually' means after all processes ended, all timers fired and the loop drained",
     "a log-directory failure admits any final state (the statement only requires that a final state is reached)",
